@@ -385,7 +385,12 @@ func ruleBookkeeping(c *Ctx, t *tables) {
 						if x.Key == nil || info.ObjectOf(kid) != info.ObjectOf(x.Key.(*ast.Ident)) {
 							continue
 						}
-						if tbl := globalMapTable(g); tbl != nil {
+						if t.pt.precVar != nil && info.ObjectOf(src) == t.pt.precVar {
+							// the binding-power table itself (read, or folded, by the table extractor)
+							for kv := range t.pt.prec {
+								s[kv] = true
+							}
+						} else if tbl := globalMapTable(g); tbl != nil {
 							for ks := range tbl {
 								if kv, err := strconv.ParseInt(ks, 10, 64); err == nil {
 									s[kv] = true
